@@ -157,3 +157,13 @@ Proof.
       unfold st0 in H1. cbn [w_total] in H1. lia.
     + unfold pass_cap, st0 in *. cbn [w_visits w_total] in *. destruct Hi as (Hv & Ht). lia.
 Qed.
+
+(* ---- JBIG2 work: the per-pixel loops that run never add up to more than the work limit ---- *)
+Theorem work_discipline limit regions : 0 <= limit -> Forall (fun p => 0 <= p) regions ->
+  0 <= fst (run_sites limit (map work_site regions)) <= limit.
+Proof.
+  intros Hl Hr. destruct (discipline (map work_site regions) limit) as [H1 H2].
+  - apply Forall_forall. intros s Hs. apply in_map_iff in Hs as (p & <- & Hp).
+    rewrite Forall_forall in Hr. specialize (Hr p Hp). unfold site_ok, work_site. cbn. lia.
+  - split; [exact H1 | exact (H2 Hl)].
+Qed.
